@@ -2,6 +2,7 @@ import MiniMcmcVerif.Model.Util
 import MiniMcmcVerif.Driver.C09
 import MiniMcmcVerif.Driver.C05
 import MiniMcmcVerif.Driver.C16
+import MiniMcmcVerif.Driver.C01
 
 open MiniMcmcVerif MiniMcmcVerif.Driver
 
@@ -11,6 +12,7 @@ def dispatch (line : String) : String :=
   | "c09" :: args => c09 args
   | "c05" :: args => c05 args
   | "c16" :: args => c16 args
+  | "c01" :: args => c01 args
   | _ => "bad-op"
 
 partial def loop (h : IO.FS.Stream) (out : IO.FS.Stream) : IO Unit := do
